@@ -1,15 +1,290 @@
 /-
   Avt.Spec.C08 — oracle of property C08 (decidable predicates evaluated on implementation states;
   the same definitions the theorems in Avt/Props/C08.lean are stated with).
+
+  Vocabulary of the property text:
+  * the *written* parameters of an SGR sequence: the list of ';'-separated parameters, each the list
+    of its ':'-separated sub-parameters (numbers; an empty number is 0);
+  * `sgrRefOps` decodes written parameters into pen operations (table + colour forms);
+  * `Pen.obs` is what the nine public accessors of a pen report; `obsStep` says what one operation
+    does to each of the nine observations (each attribute independent), `obsRef` folds it;
+    `penRef` is the pen with those observations;
+  * `parseSgrText` reads the written parameters directly from the raw text of a complete sequence;
+    `paramsOf` reads them from the parser's registers.
+
+  Covered by `checkStep`: single `.sgr` functions (decode + fold + rest of the terminal unchanged),
+  single prints (the stored cell), text runs (all `.print`), REP (last repeated cell, auto-wrap on),
+  the blanking functions `el`, `ech`, `ed`, `ich`, `dch` (erased extent carries the pen) and `il`,
+  `dl`, `su`, `sd`, `lf`, `nel`, `ri`, `rep` (no cell with a foreign pen appears in the view).
+  Not covered: DECALN (fills with the default pen by definition), RIS, buffer switches and resizes
+  (their fresh cells are specified by C16/C19/C10).
 -/
 import Avt.Spec.Base
 
 namespace Avt.Spec.C08
 open Avt Avt.Spec
 
-def checkStep (_ev : StepEv) : List Verdict := []
+/-! ### (ii) the nine public accessors and the reference fold -/
 
-def checkNew (_cols _rows : Nat) (_lim : Option Nat) (_st : Vt) : List Verdict := []
+/-- `(foreground, background, is_bold, is_faint, is_italic, is_underline, is_strikethrough, is_blink,
+    is_inverse)` -/
+abbrev Obs := Option Color × Option Color × Bool × Bool × Bool × Bool × Bool × Bool × Bool
+
+def Pen.obs (p : Pen) : Obs :=
+  (p.fg, p.bg, p.isBold, p.isFaint, p.isItalic, p.isUnderline, p.isStrikethrough, p.isBlink, p.isInverse)
+
+/-- observations of the default pen -/
+def Obs.default : Obs := (none, none, false, false, false, false, false, false, false)
+
+/-- what one operation does to the nine observations: every line changes only the components the
+    property names for that code (bold and faint are mutually exclusive) -/
+def obsStep : Obs → SgrOp → Obs
+  | _, .reset => Obs.default
+  | (fg, bg, _, _, it, un, st, bl, iv), .setBold => (fg, bg, true, false, it, un, st, bl, iv)
+  | (fg, bg, _, _, it, un, st, bl, iv), .setFaint => (fg, bg, false, true, it, un, st, bl, iv)
+  | (fg, bg, _, _, it, un, st, bl, iv), .resetIntensity => (fg, bg, false, false, it, un, st, bl, iv)
+  | (fg, bg, bo, fa, _, un, st, bl, iv), .setItalic => (fg, bg, bo, fa, true, un, st, bl, iv)
+  | (fg, bg, bo, fa, _, un, st, bl, iv), .resetItalic => (fg, bg, bo, fa, false, un, st, bl, iv)
+  | (fg, bg, bo, fa, it, _, st, bl, iv), .setUnderline => (fg, bg, bo, fa, it, true, st, bl, iv)
+  | (fg, bg, bo, fa, it, _, st, bl, iv), .resetUnderline => (fg, bg, bo, fa, it, false, st, bl, iv)
+  | (fg, bg, bo, fa, it, un, _, bl, iv), .setStrikethrough => (fg, bg, bo, fa, it, un, true, bl, iv)
+  | (fg, bg, bo, fa, it, un, _, bl, iv), .resetStrikethrough => (fg, bg, bo, fa, it, un, false, bl, iv)
+  | (fg, bg, bo, fa, it, un, st, _, iv), .setBlink => (fg, bg, bo, fa, it, un, st, true, iv)
+  | (fg, bg, bo, fa, it, un, st, _, iv), .resetBlink => (fg, bg, bo, fa, it, un, st, false, iv)
+  | (fg, bg, bo, fa, it, un, st, bl, _), .setInverse => (fg, bg, bo, fa, it, un, st, bl, true)
+  | (fg, bg, bo, fa, it, un, st, bl, _), .resetInverse => (fg, bg, bo, fa, it, un, st, bl, false)
+  | (_, bg, bo, fa, it, un, st, bl, iv), .setFg c => (some c, bg, bo, fa, it, un, st, bl, iv)
+  | (_, bg, bo, fa, it, un, st, bl, iv), .resetFg => (none, bg, bo, fa, it, un, st, bl, iv)
+  | (fg, _, bo, fa, it, un, st, bl, iv), .setBg c => (fg, some c, bo, fa, it, un, st, bl, iv)
+  | (fg, _, bo, fa, it, un, st, bl, iv), .resetBg => (fg, none, bo, fa, it, un, st, bl, iv)
+
+/-- the left-to-right fold over the operations -/
+def obsRef (o : Obs) (ops : List SgrOp) : Obs := ops.foldl obsStep o
+
+/-- the pen reporting the given observations (attribute bits placed with the generated masks) -/
+def Pen.ofObs : Obs → Pen
+  | (fg, bg, bo, fa, it, un, st, bl, iv) =>
+    { fg := fg, bg := bg,
+      intensity := if bo then .bold else if fa then .faint else .normal,
+      attrs := (if it then Gen.italicMask else 0) ||| (if un then Gen.underlineMask else 0)
+                 ||| (if st then Gen.strikethroughMask else 0) ||| (if bl then Gen.blinkMask else 0)
+                 ||| (if iv then Gen.inverseMask else 0) }
+
+/-- the reference pen after `ops`, starting from `p` -/
+def penRef (p : Pen) (ops : List SgrOp) : Pen := Pen.ofObs (obsRef (Pen.obs p) ops)
+
+/-! ### (i) the reference decoder over the written parameters -/
+
+/-- first sub-parameter of a written parameter (the number a ';'-form colour component contributes) -/
+def first (p : List Nat) : Nat := p.headD 0
+
+/-- `as u8` -/
+def byte (n : Nat) : Nat := n % 256
+
+/-- the codes that stand alone -/
+def attrTable : List (Nat × SgrOp) :=
+  [(0, .reset), (1, .setBold), (2, .setFaint), (3, .setItalic), (4, .setUnderline), (5, .setBlink),
+   (7, .setInverse), (9, .setStrikethrough), (21, .resetIntensity), (22, .resetIntensity),
+   (23, .resetItalic), (24, .resetUnderline), (25, .resetBlink), (27, .resetInverse),
+   (29, .resetStrikethrough), (39, .resetFg), (49, .resetBg)]
+
+/-- 30–37, 40–47, 90–97, 100–107 -/
+def basicColour (n : Nat) : Option SgrOp :=
+  if 30 ≤ n ∧ n ≤ 37 then some (.setFg (.indexed (n - 30)))
+  else if 40 ≤ n ∧ n ≤ 47 then some (.setBg (.indexed (n - 40)))
+  else if 90 ≤ n ∧ n ≤ 97 then some (.setFg (.indexed (n - 90 + 8)))
+  else if 100 ≤ n ∧ n ≤ 107 then some (.setBg (.indexed (n - 100 + 8)))
+  else none
+
+/-- 38 selects the foreground, 48 the background -/
+def ground (k : Nat) : Option (Color → SgrOp) :=
+  if k = 38 then some .setFg else if k = 48 then some .setBg else none
+
+/-- one written parameter decoded on its own: a stand-alone code, a basic colour, or a complete
+    ':'-form colour (`k:5:n`, `k:2:r:g:b`, `k:2:<id>:r:g:b`); everything else is skipped -/
+def sgrSingle : List Nat → Option SgrOp
+  | [n] => match attrTable.lookup n with
+           | some op => some op
+           | none => basicColour n
+  | [k, s, i] => if s = 5 then (ground k).map fun mk => mk (.indexed (byte i)) else none
+  | [k, s, r, g, b] => if s = 2 then (ground k).map fun mk => mk (.rgb (byte r) (byte g) (byte b)) else none
+  | [k, s, _, r, g, b] => if s = 2 then (ground k).map fun mk => mk (.rgb (byte r) (byte g) (byte b)) else none
+  | _ => none
+
+/-- a bare `38` / `48` (the introducer of a ';'-form colour) -/
+def introducer (p : List Nat) : Option (Color → SgrOp) :=
+  match p with
+  | [k] => ground k
+  | _ => none
+
+/-- What follows a bare 38/48: the colour it selects (when the form is complete) and how many of the
+    following parameters belong to it.  `2;r;g;b` and `5;n` are the complete forms (each component
+    is the first sub-parameter of its parameter, taken `as u8`).  Truncated forms are dropped the
+    way the code drops them: a `2` with fewer than three parameters after it is dropped alone (what
+    follows is decoded on its own), likewise a `5` at the very end; anything else is not part of
+    the colour at all. -/
+def extended : List (List Nat) → Option Color × Nat
+  | [2] :: r :: g :: b :: _ => (some (.rgb (byte (first r)) (byte (first g)) (byte (first b))), 4)
+  | [2] :: _ => (none, 1)
+  | [5] :: i :: _ => (some (.indexed (byte (first i))), 2)
+  | [5] :: _ => (none, 1)
+  | _ => (none, 0)
+
+/-- The reference decoder: every written parameter is decoded on its own (`sgrSingle`), except that
+    a bare 38/48 takes the parameters `extended` assigns to it. -/
+def sgrRefOps : List (List Nat) → List SgrOp
+  | [] => []
+  | p :: rest =>
+    match introducer p with
+    | none => (sgrSingle p).toList ++ sgrRefOps rest
+    | some mk => ((extended rest).1.map mk).toList ++ sgrRefOps (rest.drop (extended rest).2)
+termination_by l => l.length
+decreasing_by
+  all_goals simp only [List.length_cons, List.length_drop]
+  all_goals omega
+
+/-! ### (iii) the written parameters, from the registers and from the raw text -/
+
+/-- written parameters recovered from the parser registers in use -/
+def paramsOf (ps : List Param) : List (List Nat) := ps.map fun q => q.parts.take (q.curPart + 1)
+
+def isDigit (c : Nat) : Bool := 0x30 ≤ c && c ≤ 0x39
+
+/-- reader state: finished parameters (reversed), finished sub-parameters of the current parameter
+    (reversed), the number being written -/
+structure Rd where
+  done : List (List Nat) := []
+  parts : List Nat := []
+  cur : Nat := 0
+
+def Rd.param (r : Rd) : List Nat := (r.cur :: r.parts).reverse
+
+/-- body of a control sequence up to the final byte `m`, which must end the text.  The caps of the
+    code are applied as the code applies them: numbers are 16-bit with wrap-around, a 7th.. ':' stays
+    on the 6th sub-parameter, a 32nd.. ';' stays on the 32nd parameter. -/
+def readBody : List Nat → Rd → Option (List (List Nat))
+  | [], _ => none
+  | c :: cs, r =>
+    if c = 0x6d then (if cs.isEmpty then some ((r.param :: r.done).reverse) else none)
+    else if isDigit c then readBody cs { r with cur := (10 * r.cur + (c - 0x30)) % 65536 }
+    else if c = 0x3a then
+      (if r.parts.length + 1 < 6 then readBody cs { r with parts := r.cur :: r.parts, cur := 0 }
+       else readBody cs r)
+    else if c = 0x3b then
+      (if r.done.length + 1 < 32 then readBody cs { done := r.param :: r.done, parts := [], cur := 0 }
+       else readBody cs r)
+    else none
+
+/-- body of `CSI … m`; a leading ':' makes the parser ignore the whole sequence -/
+def sgrBody (body : List Nat) : Option (List (List Nat)) :=
+  match body with
+  | 0x3a :: _ => none
+  | _ => readBody body {}
+
+/-- written parameters of a text that is exactly one SGR sequence (`ESC [` or `0x9b`, digits / ';' /
+    ':', `m`); `none` for any other text -/
+def parseSgrText : List Nat → Option (List (List Nat))
+  | 0x1b :: 0x5b :: body => sgrBody body
+  | 0x9b :: body => sgrBody body
+  | _ => none
+
+/-! ### cells -/
+
+/-- no cell with a foreign pen: every cell of `new` carries `pen` or is a cell of `old` -/
+def noForeignCells (pen : Pen) (old new : List Line) : Bool :=
+  new.all fun l => l.cells.all fun c => c.pen == pen || old.any fun l0 => l0.cells.contains c
+
+/-- cells `a ≤ i < b` of row `row` are blanks carrying `pen` -/
+def blankRange (view : List Line) (row a b : Nat) (pen : Pen) : Bool :=
+  match view[row]? with
+  | none => false
+  | some l => ((l.cells.take b).drop a).all (· == Cell.blank pen) && b ≤ l.cells.length
+
+/-- rows `a ≤ r < b` are blank lines carrying `pen` -/
+def blankRows (view : List Line) (a b : Nat) (pen : Pen) : Bool :=
+  ((view.take b).drop a).all fun l => l.cells.all (· == Cell.blank pen)
+
+/-- column where a single `print` from `t` stores its cell, read off the state after it (`t'`):
+    the last column when auto-wrap is off and the cursor is already there, otherwise the column left
+    of the new cursor -/
+def printedCol (t t' : Terminal) : Nat :=
+  if !t.autoWrapMode && t.cursor.col + 1 ≥ t.cols then t.cols - 1 else t'.cursor.col - 1
+
+def printedCell (t t' : Terminal) : Option Cell :=
+  match t'.buffer.view[t'.cursor.row]? with
+  | none => none
+  | some l => l.cells[printedCol t t']?
+
+/-- the extent blanked by an erase / insert / delete function at the cursor of `t` carries `t.pen`
+    in view `v`; `none` when the function is not one of those -/
+def erasedOK (t : Terminal) (f : Function) (v : List Line) : Option Bool :=
+  let col := t.cursor.col
+  let row := t.cursor.row
+  let cols := t.cols
+  match f with
+  | .el .toRight => some (blankRange v row (min col cols) cols t.pen)
+  | .el .toLeft => some (blankRange v row 0 (min (col + 1) cols) t.pen)
+  | .el .all => some (blankRange v row 0 cols t.pen)
+  | .ech n => some (blankRange v row (min col cols) (min col cols + min (asUsize n 1) (cols - col)) t.pen)
+  | .ed .below => some (blankRange v row (min col cols) cols t.pen && blankRows v (row + 1) t.rows t.pen)
+  | .ed .above => some (blankRange v row 0 (min (col + 1) cols) t.pen && blankRows v 0 row t.pen)
+  | .ed .all => some (blankRows v 0 t.rows t.pen)
+  | .ich n => some (blankRange v row (min col cols) (min col cols + min (asUsize n 1) (cols - col)) t.pen)
+  | .dch n =>
+    let col := min col (cols - 1)
+    some (blankRange v row (cols - min (asUsize n 1) (cols - col)) cols t.pen)
+  | _ => none
+
+/-- functions whose fresh cells all carry the current pen -/
+def writesWithPen : Function → Bool
+  | .print _ | .rep _ | .ich _ | .dch _ | .ech _ | .ed _ | .el _ | .il _ | .dl _ | .su _ | .sd _
+  | .lf | .nel | .ri => true
+  | _ => false
+
+def isPrint : Function → Bool
+  | .print _ => true
+  | _ => false
+
+/-! ### the oracle -/
+
+def checkStep (ev : StepEv) : List Verdict :=
+  let pt := ev.prev.terminal
+  let nt := ev.next.terminal
+  match ev.funs with
+  | [.sgr ops] =>
+    let written := if ev.prev.parser.state = .Ground then parseSgrText ev.input else none
+    let refOps := match written with | some ps => sgrRefOps ps | none => ops
+    [ check "sgr-decode-matches-written-parameters" written.isSome (ops == refOps),
+      check "sgr-pen-is-reference-pen" true (Pen.obs nt.pen == Pen.obs (penRef pt.pen refOps)),
+      check "sgr-touches-only-the-pen" true (nt == afterCall ev.kind { pt with pen := nt.pen }) ]
+  | [f] =>
+    if writesWithPen f then
+      [ check "no-foreign-pen-in-view" true (noForeignCells pt.pen pt.buffer.view nt.buffer.view) ]
+      ++ (match f with
+          | .print _ =>
+            [ check "printed-cell-carries-pen" true
+                (match printedCell pt nt with | some c => c.pen == pt.pen | none => false) ]
+          | .rep _ =>
+            -- REP re-prints the preceding character with the *current* pen; with auto-wrap on the
+            -- last copy sits left of the new cursor
+            if pt.autoWrapMode && pt.cursor.col > 0 then
+              [ check "repeated-cell-carries-pen" true
+                  (match printedCell pt nt with | some c => c.pen == pt.pen | none => false) ]
+            else []
+          | _ => [])
+      ++ (match erasedOK pt f nt.buffer.view with
+          | some ok => [ check "blanked-extent-carries-pen" true ok ]
+          | none => [])
+    else []
+  | fs =>
+    if !fs.isEmpty && fs.all isPrint then
+      [ check "text-run-no-foreign-pen" true (noForeignCells pt.pen pt.buffer.view nt.buffer.view) ]
+    else []
+
+def checkNew (_cols _rows : Nat) (_lim : Option Nat) (st : Vt) : List Verdict :=
+  [ check "new-pen-is-default" true (Pen.obs st.terminal.pen == Obs.default),
+    check "new-view-carries-default-pen" true
+      (st.terminal.buffer.view.all fun l => l.cells.all fun c => Pen.obs c.pen == Obs.default) ]
 
 def checkParserStep (_prev : Parser) (_c : Nat) (_next : Parser) (_fn : String) : List Verdict := []
 
